@@ -280,6 +280,27 @@ fn batch(a: &Args) -> i32 {
                     *stop2.borrow_mut() = true;
                 }
             } else if let Some(v) = out.violations.first().or(out.others.first()) {
+                // debugging aid: NSIM_REPORT_OTHERS=<dir> also files violations tagged for other
+                // properties (as replay files of the property they are tagged for)
+                if let Ok(dir) = std::env::var("NSIM_REPORT_OTHERS") {
+                    let tag = v.property.split('+').next().unwrap_or("C06").to_string();
+                    let rf = ReplayFile {
+                        property: tag.clone(),
+                        world: script.world().to_string(),
+                        focus: focus.to_string(),
+                        verif_seed: seed,
+                        index,
+                        script: script.clone(),
+                        trace: out.trace.clone(),
+                        violation: ViolationRec { property: v.property.clone(), class: v.class.clone(), message: v.message.clone(), at_decision: v.at_decision },
+                        trace_tail: out.trace_tail.clone(),
+                        log: out.log.clone(),
+                        minimised: false,
+                        replay_mismatches: 0,
+                    };
+                    let _ = std::fs::create_dir_all(&dir);
+                    let _ = std::fs::write(format!("{dir}/{tag}-from-{}-{}-{}.json", p2, seed, index), serde_json::to_string_pretty(&rf).unwrap());
+                }
                 if ag.other.len() < 20 {
                     ag.other.push(json!({"index": index, "property": v.property, "class": v.class, "message": v.message}));
                 }
